@@ -40,6 +40,13 @@ Theorem C10_rule_removes_only_orphans :
     (exists o rest, fit_orphans (i_fit inp) = o :: rest /\ p_store o = s) /\ forallb rf_satisfied (fit_rules (i_fit inp)) = true.
 Proof. exact rule_removes_only_orphans. Qed.
 
+(* ... and the same through CheckerController.CheckRegion (joint-state checker and learner checker in front) *)
+Theorem C10_controller_removes_only_justified :
+  forall inp st s, In (Some (st, ARemove s)) (controller_check inp) ->
+    max_replicas (i_cfg inp) < voter_count (i_region inp)
+    \/ ((exists o rest, fit_orphans (i_fit inp) = o :: rest /\ p_store o = s) /\ forallb rf_satisfied (fit_rules (i_fit inp)) = true).
+Proof. exact controller_removes_only_justified. Qed.
+
 (* 3. a replacement adds the new peer before it removes the old one.
    (a) the verified checker run on every operator of the implementation: a step list in which every prefix
        adds at least as many peers as it removes never takes ANY region (with at most one peer per store) on
@@ -101,6 +108,7 @@ Print Assumptions C10_add_target_good.
 Print Assumptions C10_checker_targets_good.
 Print Assumptions C10_replica_removes_only_surplus.
 Print Assumptions C10_rule_removes_only_orphans.
+Print Assumptions C10_controller_removes_only_justified.
 Print Assumptions C10_balanced_plan_never_dips.
 Print Assumptions C10_one_peer_per_store_invariant.
 Print Assumptions C10_replace_is_add_then_remove_refuted.
